@@ -240,6 +240,14 @@ def check_shape(arg):
                 ent['detail'] = detail
             elif r != z3.unsat and ent['verdict'] == 'unsat':
                 ent['verdict'] = 'unknown'
+            elif r == z3.unsat and len(out.setdefault('cross_checks', [])) < 2 and not z3.is_true(formula):
+                try:
+                    from .common import cross_check
+                    cc = cross_check(list(s.assertions()), 'unsat', timeout_s=60)
+                    cc['obligation'] = name
+                    out['cross_checks'].append(cc)
+                except Exception as e:   # pragma: no cover
+                    out['cross_checks'].append({'obligation': name, 'error': str(e)[:200], 'agree': None, 'results': {}})
             s.pop()
 
         names_ob = 'C19' == prop
